@@ -657,7 +657,7 @@ pub fn run_c10(case: &C10Case, info: &mut CaseInfo) -> Result<(), Fail> {
                     let passes: u64 = mem.iter().map(|i| case.esm[*i].iter().map(|e| if let Esm::Accept { after_polls } = e { u64::from(*after_polls) } else { 0 }).max().unwrap_or(0)).sum::<u64>() + 1;
                     let worst_us = passes * (mem.len().div_ceil(checks_per_frame.max(1)) as u64) * 5 * 2;
 
-                    if !any_script && !mem.is_empty() && worst_us * 2 <= timeout_us {
+                    if !any_script && !mem.is_empty() && worst_us * 8 <= timeout_us {
                         fail!(format!("C10|healthy-transition-failed|{name}"), "{name} on group {group}: every member accepts state {req} within 5 status reads, but the call returned {err}");
                     }
                 }
